@@ -277,7 +277,7 @@ def run(ctx, rep):
         "attribute values, namespace URIs) interpolated into the returned string is checked against the context computed from the "
         "constant text in front of it (text vs attribute value) and must carry the sanitiser of that context; tag names of open / "
         "empty / close tags are one unchanged variable; the re-declaration helper is constant-folded on representative map pairs")
-    rep.rules_run = ["R1", "R2", "R3", "R4", "R5"]
+    rep.rules_run = ["R1", "R2", "R3", "R4", "R5", "R6"]
     rep.assumptions += ["NOT decided: parse-back equality (needs a parser run)",
                         "element names and prefixes are XML-legal (the property's quantifier)",
                         "for the EML exporter, content holding pre-escaped entity spellings or inline para tags is outside the quantifier "
@@ -289,6 +289,28 @@ def run(ctx, rep):
         rule_r3(ctx, rep)
     if only in (None, "R4"):
         rule_r4(ctx, rep)
+    if only in (None, "R6"):
+        # entity tables handed to escape() / quoteattr(): only the predefined XML entities and character references are
+        # defined without a DTD -- anything else (&nbsp; ...) makes the output ill-formed
+        import re as _re
+        from ..valslice import reachable as _reach
+        ok_ent = _re.compile(r"^&(amp|lt|gt|quot|apos|#[0-9]+|#x[0-9A-Fa-f]+);$")
+        for f_ in _reach(ctx, [ctx.prog.func(q) for q in EXPORTERS]):
+            for n_ in ast.walk(f_.node):
+                if isinstance(n_, ast.Call) and len(n_.args) >= 2:
+                    r_ = ctx.prog.resolve_name_expr(f_.module, n_.func) if isinstance(n_.func, (ast.Name, ast.Attribute)) else None
+                    if r_ and r_[0] == "external" and r_[1] in ("xml.sax.saxutils.escape", "xml.sax.saxutils.quoteattr"):
+                        rep.count("entity tables handed to escape / quoteattr")
+                        tbl = ctx.prog.const(f_.module, n_.args[1])
+                        if not isinstance(tbl, dict):
+                            rep.oblige(("R6", f_.qname, norm(n_)[:50]), False)
+                            rep.add("R6", f_.qname, n_, "the entity table handed to the escaper does not fold to a constant dict: what it writes cannot be checked", f_.loc(n_))
+                            continue
+                        bad_ = {k: v for k, v in tbl.items() if not (isinstance(v, str) and ok_ent.match(v))}
+                        rep.oblige(("R6", f_.qname, norm(n_)[:50]), not bad_)
+                        if bad_:
+                            rep.add("R6", f_.qname, n_, f"the entity table writes {bad_}: only &amp; &lt; &gt; &quot; &apos; and character references are defined in a "
+                                    f"document without a DTD, so the output is not well-formed when such a character occurs", f_.loc(n_))
     if only in (None, "R5"):
         from ..memo import check_slice
         from ..valslice import reachable
